@@ -477,19 +477,26 @@ fn gen_str_text(rng: &mut Rng, maxlen: usize) -> String {
         1 => 2,
         _ => rng.range_usize(1, maxlen.max(1)),
     };
+    // (one token in six consists of the two extreme non-blank bytes only: '!' is the byte next to the blank)
+    let edge = rng.chance(1, 6);
     (0..n)
         .map(|_| match rng.below(8) {
+            _ if edge => *rng.pick(&['!', '!', '!', '~']),
             0 => '-',
             1 => (b'0' + rng.below(10) as u8) as char,
+            2 => '!',
             _ => (0x21 + rng.below(0x7e - 0x21 + 1) as u8) as char,
         })
         .collect()
 }
 
 fn gen_sep(rng: &mut Rng, allow_newlines: bool) -> Vec<u8> {
-    let n = match rng.below(10) {
-        0..=5 => 1,
-        6 | 7 => 2,
+    let n = match rng.below(24) {
+        0..=13 => 1,
+        14..=18 => 2,
+        // a run of whitespace longer than a machine word (a scanner that skips blanks several bytes at a time is in its
+        // bulk step here and has to stop exactly in front of the next token, whatever its first byte)
+        19 => rng.range_usize(6, 24),
         _ => rng.range_usize(1, 5),
     };
     let mut v = Vec::new();
